@@ -4,6 +4,7 @@ Property theorems only; helper lemmas live in Proofs/.
 -/
 import TrimeshVerif.Proofs.Grouping
 import TrimeshVerif.Proofs.GroupingMore
+import TrimeshVerif.Proofs.GroupingUnique
 import TrimeshVerif.Generated.C06Pack
 namespace TV.C06
 open TV TV.Grouping
@@ -328,5 +329,27 @@ theorem C06_packing_constants_of_source :
     TV.Generated.C06.maxCols = 4 ∧
     TV.Generated.C06.packRows = [2, 3, 4].map (fun c => (c, precision c, threshold c)) ∧
     TV.Generated.C06.guard = [("d_max", "lt", "threshold"), ("d_min", "gt", "-threshold")] := by decide
+
+/-- **unique_value_in_row**: every row of the mask has the length of its row and at most one `True`; it has one exactly
+    when some value occurs exactly once in the row, and a marked entry always holds such a value -/
+theorem C06_unique_value_in_row (rows : List (List Int)) :
+    uniqueValueInRow rows = rows.map uviRow ∧
+    ∀ r : List Int, (uviRow r).length = r.length ∧ (uviRow r).count true ≤ 1 ∧
+      ((uviRow r).count true = 1 ↔ ∃ v ∈ r, r.count v = 1) ∧
+      (∀ i : Nat, (uviRow r)[i]? = some true → ∃ v, r[i]? = some v ∧ r.count v = 1) :=
+  ⟨uniqueValueInRow_eq rows, uviRow_spec⟩
+
+/-- **unique_bincount** (non-negative integers): the unique values are the distinct values in ascending order, the
+    inverse rebuilds the input (`unique[inverse[i]] = values[i]`) and the counts are the numbers of occurrences -/
+theorem C06_unique_bincount (vs : List Nat) (hne : vs ≠ []) :
+    let r := uniqueBincount vs
+    r.1.Pairwise (· < ·) ∧ (∀ v, v ∈ r.1 ↔ v ∈ vs) ∧
+    (∀ i : Nat, i < vs.length → ∃ k, r.2.1[i]? = some k ∧ r.1[k]? = vs[i]?) ∧
+    (r.2.2 = r.1.map (fun u => vs.count u)) :=
+  uniqueBincount_spec vs hne
+
+example : uniqueBincount [3, 0, 3, 5] = ([0, 3, 5], [1, 0, 1, 2], [1, 2, 1]) ∧
+    uniqueValueInRow [[-1, 1, 1], [2, 2, 2], [4, 5, 6]] = [[true, false, false], [false, false, false], [false, false, true]] := by
+  decide
 
 end TV.C06
